@@ -61,6 +61,32 @@ def state_diff(MC, F, occ, exact=True):
     return None
 
 
+def make_probes(rng, S, n=5):
+    """fixed trial moves (site tuples) that are asked again and again during a history: single swaps, a multi-site move, a sloppy one"""
+    free = [i for i in range(S.Nsites) if i != S.vacancy]
+    if not free: return []
+    pr = []
+    for _ in range(n):
+        k = rng.randint(1, min(3, len(free)))
+        a = rng.sample(free, k)
+        rest = [i for i in free if i not in a]
+        b = rng.sample(rest, min(len(rest), rng.randint(0, 2)))
+        pr.append((a, b) if rng.random() < 0.5 else (b, a))
+    pr.append(([free[0]], [free[-1]]))
+    return pr
+
+
+def query_diff(MC, F, probes):
+    """query results (trial energy changes of the fixed probe moves, asked twice) against the fresh sampler: None or a description.
+    Both run the same arithmetic in the same order, so equality is exact also for float energies."""
+    for a, b in probes:
+        for rep in (0, 1):
+            d1, d2 = MC.deltaE_trial(a, b), F.deltaE_trial(a, b)
+            if d1 != d2:
+                return "deltaE_trial(%s, %s) = %r but a sampler freshly started on the same occupation gives %r" % (a, b, d1, d2)
+    return None
+
+
 def apply_to_occ(occ, a, b):
     """the occupation update(a, b) is meant to produce (sequential semantics of the code)"""
     o = occ.copy()
@@ -108,7 +134,7 @@ class Violation(Exception):
         self.what, self.key, self.detail = what, key, detail
 
 
-def do_update(ck, S, MC, occ, a, b, kind, hist, exact=True, scale=1.0):
+def do_update(ck, S, MC, occ, a, b, kind, hist, exact=True, scale=1.0, probes=()):
     """one checked update on the implementation; returns the new tracked occupation"""
     E0 = MC.E()
     try:
@@ -122,6 +148,10 @@ def do_update(ck, S, MC, occ, a, b, kind, hist, exact=True, scale=1.0):
     d = state_diff(MC, F, occ2)
     if d is not None:
         raise Violation("after update%s: %s" % ((list(map(int, a)), list(map(int, b))), d), "c33-state-differs-from-fresh",
+                        dict(args=[list(map(int, a)), list(map(int, b))], kind=kind))
+    d = query_diff(MC, F, probes)
+    if d is not None:
+        raise Violation("after update%s: %s" % ((list(map(int, a)), list(map(int, b))), d), "c33-query-differs-from-fresh",
                         dict(args=[list(map(int, a)), list(map(int, b))], kind=kind))
     E1 = MC.E()
     if proper(a, b):
@@ -145,22 +175,30 @@ def exhaustive(ck, rng, S, max_multi):
     """every occupation x every single-site update (+ sampled multi-site updates), each followed by the inverse update"""
     MC = S.MC
     free = [i for i in range(S.Nsites) if i != S.vacancy]
+    probes = make_probes(rng, S)
     n = 0
+    prev = None
     for occ0 in mcsys.all_occs(S):
         occ = occ0.copy()
         hist = []
         try:
-            MC.start(occ.copy())
+            if prev is not None:
+                # re-start WITHOUT an update in between, the same queries before and after
+                MC.start(prev.copy()); hist.append(["start", prev.tolist()])
+                d = query_diff(MC, mcsys.fresh(MC, prev), probes)
+                if d: raise Violation("after start: " + d, "c33-query-differs-from-fresh", {})
+            prev = occ0.copy()
+            MC.start(occ.copy()); hist.append(["start", occ.tolist()])
             F = mcsys.fresh(MC, occ)
-            d = state_diff(MC, F, occ)
-            if d: raise Violation("after start: " + d, "c33-start-state", {})
+            d = state_diff(MC, F, occ) or query_diff(MC, F, probes)
+            if d: raise Violation("after start: " + d, "c33-start-state" if "deltaE_trial" not in d else "c33-query-differs-from-fresh", {})
             ups = [([i], [], "occ1") if occ[i] == 0 else ([], [i], "unocc1") for i in free]
             ups += [([i], [j], "swap") for i in free for j in free if occ[i] == 0 and occ[j] == 1][:max_multi]
             for _ in range(max_multi):
                 ups.append(gen_args(rng, S, occ, rng.choice(["multi", "sloppy", "noop"])))
             for a, b, kind in ups:
                 hist.append([list(map(int, a)), list(map(int, b))])
-                occ1, nt = do_update(ck, S, MC, occ, a, b, kind, hist)
+                occ1, nt = do_update(ck, S, MC, occ, a, b, kind, hist, probes=probes if n % 7 == 0 else ())
                 ck.case(key=(S.label, occ.tolist(), a, b), nontrivial=nt, kind="exhaustive:" + kind,
                         sample={"system": S.label, "occ": occ.tolist(), "update": [a, b], "E": float(MC.E())} if n == 0 else None)
                 n += 1
@@ -182,20 +220,28 @@ def random_history(ck, rng, S, nops, exact=True):
     occ0 = mcsys.random_occ(rng, S)
     occ = occ0.copy()
     hist = []
+    probes = make_probes(rng, S)
     try:
         MC.start(occ.copy())
+        d = query_diff(MC, mcsys.fresh(MC, occ), probes)
+        if d: raise Violation("after start: " + d, "c33-query-differs-from-fresh", {})
         for k in range(nops):
             r = rng.random()
-            if r < 0.04:
+            if r < 0.12:
+                # re-start (often right after another start or a query, with no update in between)
                 occ = mcsys.random_occ(rng, S)
                 hist.append(["start", occ.tolist()])
                 MC.start(occ.copy())
-                d = state_diff(MC, mcsys.fresh(MC, occ), occ)
+                F = mcsys.fresh(MC, occ)
+                d = state_diff(MC, F, occ)
                 if d: raise Violation("after restart: " + d, "c33-start-state", {})
+                d = query_diff(MC, F, probes)
+                if d: raise Violation("after restart: " + d, "c33-query-differs-from-fresh", {})
+                ck.case(key=(S.label, "restart", occ.tolist()), nontrivial=True, kind=("random:" if exact else "random-float:") + "restart+queries")
                 continue
             a, b, kind = gen_args(rng, S, occ)
             hist.append([list(map(int, a)), list(map(int, b))])
-            occ1, nt = do_update(ck, S, MC, occ, a, b, kind, hist[-30:], exact=exact, scale=scale)
+            occ1, nt = do_update(ck, S, MC, occ, a, b, kind, hist[-30:], exact=exact, scale=scale, probes=probes if k % 3 == 0 else ())
             ck.case(key=(S.label, occ.tolist(), a, b), nontrivial=nt, kind=("random:" if exact else "random-float:") + kind)
             occ = occ1
     except Violation as v:
@@ -269,10 +315,14 @@ def trace(ck, rng, S, nev, exhaustive_tiny=False):
         return ev
     occ = mcsys.random_occ(rng, S)
     start(occ)
+    probes = make_probes(rng, S, 3)
     while len(ev) < nev:
         r = rng.random()
         cur = np.asarray(MC.occ)
-        if r < 0.05:
+        # the same few trial moves are asked again and again: before and after re-starts, repeatedly, between updates
+        for a, b in probes:
+            if rng.random() < 0.35: trial(list(a), list(b))
+        if r < 0.12:
             start(mcsys.random_occ(rng, S))
         elif r < 0.08:
             # an occupation start() must reject, then a valid one (the object is half-initialised in between)
@@ -361,8 +411,8 @@ def run(ck):
             for sup in mcsys.SUPERS[name]:
                 plan.append((name, setup, sup))
     rng.shuffle(plan)
-    budget_ex = ck.n(14, 60)
-    budget_rand = ck.n(14, 70)
+    budget_ex = ck.n(9, 60)
+    budget_rand = ck.n(10, 70)
     # always: samplers in which some mobile sites carry NO interaction (second mobile sublattice excluded from the expansion,
     # empty expansion, clusters switched off by the spectators) -- update() must keep occ, both sets and the counts in step there too
     always = []
